@@ -858,6 +858,7 @@ func TestVerifC14(t *testing.T) {
 
 	n := r.Scale(600)
 	r.Cases("header", 3*n, func(c *vcommon.Case) { checkHeader(c, GenHeader(c.R, true)) })
+	checkHeaderSeqs(r, 2*n)
 	r.Cases("body", n, func(c *vcommon.Case) { checkBody(c, GenBody(c.R)) })
 	r.Cases("babe", n, func(c *vcommon.Case) {
 		checkBabePre(c, GenBabePre(c.R))
